@@ -1,6 +1,7 @@
 package scen
 
 import (
+	"hash/fnv"
 	"encoding/json"
 	"errors"
 	"fmt"
@@ -487,6 +488,12 @@ func digest(vs ...interface{}) string {
 	b, err := json.Marshal(vs)
 	if err != nil {
 		return "!" + err.Error()
+	}
+	if len(b) > 300 {
+		// long values (padding of kilobytes) by length and hash
+		h := fnv.New64a()
+		h.Write(b)
+		return string(b[:80]) + fmt.Sprintf("...(%d bytes, fnv %x)", len(b), h.Sum64())
 	}
 	return string(b)
 }
